@@ -265,4 +265,8 @@ class If(raw_types.Operation):
         if subop_qasm is None:
             return None
         condition_qasm = " && ".join(protocols.qasm(c, args=args) for c in self._conditions)
-        return f'if ({condition_qasm}) {subop_qasm}'
+        # A QASM `if` guards a single statement: repeat it for every line the sub-operation emits.
+        return ''.join(
+            f'if ({condition_qasm}) {line}' if line.strip() else line
+            for line in subop_qasm.splitlines(keepends=True)
+        )
